@@ -33,7 +33,8 @@ ASSUMPTIONS = [
     "watched blocks are quarantined (never really released), so addresses are not recycled inside a history",
 ]
 
-KINDS = ["sparse", "dense", "scalar"]
+KINDS = ["sparse", "dense", "scalar", "empty", "empty_ds"]
+IN_KIND = {"sparse": "sparse", "dense": "dense", "scalar": "scalar", "empty": "sparse", "empty_ds": "sparse"}
 
 
 class ChildDied(Exception):
@@ -87,13 +88,13 @@ class History:
         op = s[0]
         did = None
         if op == "eval":
-            kind = KINDS[s[1] % 3]
+            kind = KINDS[s[1] % len(KINDS)]
             src = self.pick(self.tensors(), s[2]) if s[2] >= 0 else None
             out = self.fresh()
             req = {"cmd": "eval", "kind": kind, "out": out}
             if src is not None:
                 req["input"] = src
-                req["in_kind"] = self.names[src]["kind"]
+                req["in_kind"] = IN_KIND[self.names[src]["kind"]]
                 self.features.add("fed_as_input")
                 self.touch(src)
             rep = self.call(req)
@@ -226,7 +227,7 @@ def run_history(steps, worker):
 
 
 # --------------------------------------------------------------------------- exhaustive
-REDUCED = [["eval", 0, -1], ["eval", 2, 0], ["eval", 1, 1000], ["alias", 1000], ["cffi", 1000], ["read", 0],
+REDUCED = [["eval", 0, -1], ["eval", 2, 0], ["eval", 3, 1000], ["alias", 1000], ["cffi", 1000], ["read", 0],
            ["del", 0], ["del", 1000], ["gc"], ["pickle", 1000]]
 
 
@@ -269,12 +270,12 @@ def machine_class(worker, stats):
                 except Exception:  # noqa: BLE001
                     worker.close()
 
-        @rule(kind=st.integers(0, 2))
+        @rule(kind=st.integers(0, 4))
         def evaluate_fresh(self, kind):
             self.do(["eval", kind, -1])
 
         @precondition(lambda self: self.h.tensors())
-        @rule(kind=st.integers(0, 2), src=st.integers(0, 50))
+        @rule(kind=st.integers(0, 4), src=st.integers(0, 50))
         def evaluate_from(self, kind, src):
             self.do(["eval", kind, src])
 
